@@ -1,6 +1,7 @@
 from mindsdb_sql import OrderBy
 from mindsdb_sql.exceptions import PlanningException
-from mindsdb_sql.parser.ast import Identifier, Operation, BinaryOperation, BetweenOperation
+from mindsdb_sql.parser.ast import Identifier, Operation, BinaryOperation, BetweenOperation, Select
+from mindsdb_sql.planner.utils import query_traversal
 
 
 def find_time_filter(op, time_column_name):
@@ -67,18 +68,27 @@ def validate_ts_where_condition(op, allowed_columns, allow_and=True):
                 raise PlanningException(
                     f'For time series predictors every operand of AND in WHERE must be a condition, found instead: {str(arg)}.')
 
+    def check_column(identifier):
+        if identifier.parts[-1].lower() not in allowed_columns:
+            raise PlanningException(
+                f'For time series predictor only the following columns are allowed in WHERE: {str(allowed_columns)}, found instead: {str(identifier)}.')
+
+    def check_nested_columns(node, is_table=False, **kwargs):
+        # columns inside value lists, casts, CASE ...; a sub-query has its own scope
+        if isinstance(node, Select):
+            return node
+        if isinstance(node, Identifier) and not is_table:
+            check_column(node)
+
     for arg in op.args:
         if isinstance(arg, Identifier):
-            if arg.parts[-1].lower() not in allowed_columns:
-                raise PlanningException(
-                    f'For time series predictor only the following columns are allowed in WHERE: {str(allowed_columns)}, found instead: {str(arg)}.')
+            check_column(arg)
             # remove alias
             arg.parts = [arg.parts[-1]]
-
-    if isinstance(op.args[0], Operation):
-        validate_ts_where_condition(op.args[0], allowed_columns, allow_and=True)
-    if isinstance(op.args[1], Operation):
-        validate_ts_where_condition(op.args[1], allowed_columns, allow_and=True)
+        elif isinstance(arg, Operation):
+            validate_ts_where_condition(arg, allowed_columns, allow_and=True)
+        else:
+            query_traversal(arg, check_nested_columns)
 
 
 def recursively_check_join_identifiers_for_ambiguity(item, aliased_fields=None):
